@@ -101,7 +101,7 @@ def EWD(
     # - key=lambda item: item[1] tells min to compare items based on their second element (the degree).
     # - [0] extracts the Vertex object (the first element) from the (Vertex, degree) tuple
     #   that corresponds to the minimum degree.
-    q = min(divisor.degrees.items(), key=lambda item: item[1])[0]
+    q = min(divisor.degrees.items(), key=lambda item: (item[1], item[0].name))[0]
 
     if visualizer:
         visualizer.add_step(divisor, CFOrientation(graph, []), q=q.name, description="Initial state with q selected.", source_function="EWD")
